@@ -1,5 +1,6 @@
 (* Model/OccSrc.v — the tag policies of the three read-modify-write commands of the CLI, computed from the facts
    srcfacts read from the Go source on this run (Src/SrcOcc.v).  Definitions only. *)
+From Verif Require Src.SrcClient Model.Client.
 From Verif Require Import Base.Bytes Model.Occ Src.SrcOcc.
 
 (* the client returns the ETag response header as the tag of GetEnvironment, and sends the tag parameter of an
@@ -12,5 +13,19 @@ Definition pol_set : policy := policy_of_sites client_ok occ_set_sites.
 Definition pol_rm : policy := policy_of_sites client_ok occ_rm_sites.
 Definition pol_edit : policy := policy_of_sites client_ok occ_edit_sites.
 
+(* does the client send an update (PATCH) again when its reply was lost?  retry.go as read for C20 (Src/SrcClient.v,
+   evaluated by Model/Client.v: the policy of UpdateEnvironmentWithRevision - the default one unless its call options
+   name another - looked up in the shouldRetry table for the verb of that operation), provided shouldRetry and
+   doWithRetry have the shape that makes that table the whole truth (Src/SrcOcc.v: occ_should_retry_exact) *)
+Definition update_replayed : bool :=
+  negb occ_should_retry_exact
+  || match Client.find_op "UpdateEnvironmentWithRevision" SrcClient.client_ops with
+     | Some f => match Client.should_retry (Client.policy_of f) (SrcClient.of_verb f) with
+                 | Some false => false
+                 | _ => true
+                 end
+     | None => true
+     end.
+
 (* the commands `esc env set`, `esc env rm <path>`, interactive `esc env edit`, `esc env edit --file` as the source has them *)
-Definition cli_command (o : op) : command tree := command_of pol_set pol_rm pol_edit o.
+Definition cli_command (o : op) : command tree := command_of pol_set pol_rm pol_edit update_replayed o.
